@@ -1,2 +1,2 @@
 fn main() {}
-// 746b293b
+// 1dedf6f1
